@@ -38,6 +38,27 @@ fn generate(ctx: &Ctx, n: usize, via_file: bool, tag: &str) -> Result<String, St
     res
 }
 
+/// OUTPUT is a file whose NAME is not valid UTF-8 (legal on this platform): the formula must be
+/// in that file and nothing on stdout. Ok((file content, stdout)).
+fn generate_to_non_utf8_name(ctx: &Ctx, n: usize) -> Result<(String, String), String> {
+    use std::ffi::OsString;
+    use std::os::unix::ffi::OsStrExt;
+    let dir = ctx.fresh_dir(&format!("c15-nonutf8-{}", n));
+    let _ = std::fs::create_dir_all(&dir);
+    let file = dir.join(std::ffi::OsStr::from_bytes(b"reines_\xE9 \xFF.txt"));
+    let args: Vec<OsString> = vec!["-n".into(), n.to_string().into(), file.clone().into_os_string()];
+    let out = cli::run(&ctx.bin("n_queens_gen"), &args, None, Some(&dir), None, Duration::from_secs(120));
+    let res = if out.timed_out {
+        Err("watchdog".to_string())
+    } else if !out.ok() {
+        Err(format!("n_queens_gen -n {} <file with a non-UTF-8 name> failed: {} {}", n, out.status_string(), out.stderr_str().lines().take(4).collect::<Vec<_>>().join(" | ")))
+    } else {
+        Ok((std::fs::read_to_string(&file).unwrap_or_default(), out.stdout_str()))
+    };
+    let _ = std::fs::remove_dir_all(&dir);
+    res
+}
+
 fn generate_to_dev_stdout(ctx: &Ctx, n: usize) -> Result<String, String> {
     let args = vec!["-n".to_string(), n.to_string(), "/dev/stdout".to_string()];
     let out = cli::run(&ctx.bin("n_queens_gen"), &args, None, None, None, Duration::from_secs(120));
@@ -75,6 +96,17 @@ pub fn check_n(ctx: &Ctx, st: &mut Stats, n: usize, exact: bool, with_rsbdd: boo
             Ok(t3) if t3 == text => st.bump("dev_stdout_output_equals_stdout"),
             Ok(t3) if matches!((refsyn::parse_text(&t3), refsyn::parse_text(&text)), (Ok(x), Ok(y)) if x == y) => st.bump("dev_stdout_output_is_the_same_formula_as_stdout"),
             Ok(t3) => st.violate("c15.run", format!("C15:dev-stdout-output-differs:n={}", n), format!("n = {}: `n_queens_gen -n {} /dev/stdout` writes something else than without OUTPUT: {} vs {} bytes; tail: {:?}", n, n, t3.len(), text.len(), t3.chars().rev().take(80).collect::<String>().chars().rev().collect::<String>()), case()),
+            Err(e) if e == "watchdog" => st.bump("watchdog(inconclusive case)"),
+            Err(e) => st.violate("c15.run", format!("C15:generator-failed:n={}", n), e, case()),
+        }
+        match generate_to_non_utf8_name(ctx, n) {
+            Ok((t4, so)) => {
+                if !matches!((refsyn::parse_text(&t4), refsyn::parse_text(&text)), (Ok(x), Ok(y)) if x == y) || refsyn::parse_text(so.trim()).is_ok() && !so.trim().is_empty() {
+                    st.violate("c15.run", format!("C15:non-utf8-output-name:n={}", n), format!("n = {}: OUTPUT with a file name that is not valid UTF-8: the file holds {} bytes (stdout without OUTPUT: {}), stdout holds {} bytes", n, t4.len(), text.len(), so.len()), case());
+                } else {
+                    st.bump("output_file_with_a_non_utf8_name");
+                }
+            }
             Err(e) if e == "watchdog" => st.bump("watchdog(inconclusive case)"),
             Err(e) => st.violate("c15.run", format!("C15:generator-failed:n={}", n), e, case()),
         }
